@@ -43,6 +43,10 @@ CHECKS = {
   technique="deterministic simulation: seeded container histories with interleaved repeated dumps (four encoders + pvl.dumps defaults, seeded options, same/fresh encoder instances), argument compared with the reference model after every single encode call",
   text="Seeded search over modules built by arbitrary operation histories (duplicate keys at every level, groups valid and invalid for PDS3) with dumps called 2-4 times in a row and again after further mutations; calls in a row must agree (same text or same exception type) and the argument must equal the model after each call, the only accepted change being a top-level PVLGroup replaced by a PVLObject of identical content at the identical position under PDS3 conversion. Evidence over the histories run, not proof.",
   note="Trusted: the C10 list-of-pairs model; the modelling of the permitted PDS3 side effect (see evidence assumptions)."),
+"C16": dict(engine="E3-history", design="5 (C16)",
+  technique="deterministic simulation: seeded call histories on one long-lived parser/encoder/decoder instance (incl. the shared pvl_validate/pvl_translate instances) with failing calls and in-flight aborts injected through the instance's token channel (SimLexer: EOF or SimAbort at token k), each call compared with a fresh instance and, sampled, with a cold child forked from a pristine interpreter",
+  text="Seeded search over histories of 2-12 calls (well-formed, value-loss, token-damaged and tests/data labels; encodable and unencodable modules; decodable and undecodable texts; crash-and-reuse via aborted token streams) on one instance; every call's module+errors or exception type+message+position must equal a fresh instance's, 5% also a cold process's. Exploration over the histories run.",
+  note="Trusted: a fresh instance of the documented configuration as the reference; result descriptors (canonical module, errors attribute, exception type/message/position)."),
 }
 ENGINES = [
  {"name":"E1-token-channel","path":"sim/chan.py, sim/gen.py, sim/refparse.py","serves_properties":["C05","C06","C08","C15"],"kind_free_text":"token-channel interposer (lexer_fn seam) and stored-text damage with an independent token-kind recogniser as oracle"},
